@@ -72,3 +72,19 @@ for nm, t in progs:
 c07 += rt("C07_forinit_multi_refuted", "void f(void){ for (int *p = 0, *q = 0; ; ) ; }", "witness (known finding): a for-init declaration with several declarators does not round-trip", False, False)
 c07 += rt("C07_assign_lvalue_refuted", "void f(void){ (a, b) = 1; }", "witness (known finding): an assignment whose lvalue is a comma expression does not round-trip", False, False)
 open('/verif/coq/proofs/GenExamples.v','w').write(c07)
+
+def rg(name, text, comment, rp=False):
+    from pycparser import c_parser, c_generator
+    out = c_generator.CGenerator(reduce_parentheses=rp).visit(c_parser.CParser().parse(text, "f.c"))
+    return f'''(* {comment} *)
+Example ex_{name} :
+  regen {"true" if rp else "false"} (s2l {coqstr(text)}) = Some (s2l {coqstr(out)}).
+Proof. vm_compute. reflexivity. Qed.
+'''
+c08 = hdr + rg("C08_regen_decls", "static const int a = 1, *b[3]; int (*fp)(int, char *); struct S { int x : 3; } s = { .x = 1 };", "the regenerated text of a declaration list: every specifier, declarator and initializer token is there, in order") \
+  + rg("C08_regen_exprs", "int f(int a, int b) { return a - (b - a) + a * (b + 1) / (a ? b : -a) + sizeof(int) + (int)a % b; }", "operands keep their grouping (default configuration: every non-simple operand parenthesised)") \
+  + rg("C08_regen_exprs_rp", "int f(int a, int b) { return a - (b - a) + a * (b + 1) - (a - b) - 1; }", "reduce_parentheses keeps exactly the parentheses the precedence levels require", True) \
+  + rg("C08_regen_stmts", "void g(int n) { for (int i = 0; i < n; i++) if (i) continue; else break; switch (n) { case 1: case 2: n = 1; break; default: ; } }", "statements: nothing dropped, duplicated or reordered") \
+  + rg("C08_designator_identifier_refuted", "enum { N = 1 }; int a[3] = { [N] = 1 };", "witness (known finding): an identifier array designator comes back as a member designator") \
+  + rg("C08_struct_body_twice_refuted", "struct S { int a; } x, y;", "witness (known finding): the struct body is emitted once per declarator")
+open('/verif/coq/proofs/RegenExamples.v','w').write(c08)
